@@ -509,6 +509,8 @@ func (cl *Cluster) Run() {
 		if e.kind != evGossip {
 			cl.events++
 			c.Event(1)
+		} else {
+			c.Event(0) // progress beat for the hang detector
 		}
 		cl.dispatch(e)
 		cl.settle()
